@@ -1,7 +1,7 @@
 #!/venv/bin/python
 """Re-run every filed seeded / harmless change against the current checks and rewrite its meta.json.
 
-usage: tools/reverify_all.py [seeded|benign|both] [--jobs N] [--only Cxx ...] [--skip Cyy ...] [--touch Czz ...]
+usage: tools/reverify_all.py [seeded|benign|both] [--jobs N] [--only Cxx ...] [--skip Cyy ...] [--touch Czz ...] [--match -x ...]
 
 Changes are vetted in place (tools/file_seed.py / tools/file_benign.py on the filed directory).
 Checks of one lock group are never run concurrently against different trees (they share generated
@@ -59,10 +59,13 @@ def main():
             out.append(a)
         return set(out)
     only, skip, touch = opt("--only"), opt("--skip") or set(), opt("--touch")
+    match = opt("--match")      # keep only changes whose directory name contains one of these strings
     jobs = []
     for kind in (["seeded", "benign"] if which == "both" else [which]):
         for d in sorted((VERIF / kind).iterdir()):
             if not (d / "meta.json").exists():
+                continue
+            if match and not any(m in d.name for m in match):
                 continue
             meta = json.loads((d / "meta.json").read_text())
             prop = meta.get("breaks_property") or meta["property"]
